@@ -326,6 +326,28 @@ pub fn check_c20_step(net: &Net, st: &StepRecord) -> Option<String> {
     None
 }
 
+// ---------------------------------------------------------------- known findings (see /verif/known_findings.json, DESIGN.md §11)
+
+/// class of a failure, used to match entries of known_findings.json (never the property id alone)
+pub fn finding_key(prop: &str, why: &str, input: &Value) -> Option<String> {
+    let msg = input["outcome"]["error_message"].as_str().unwrap_or("");
+    if prop == "C04" && why.contains("TraceError") && msg.contains("state from") && msg.contains("`Call(RequestSentBy(") && msg.contains("is incompatible with expected") {
+        return Some("stale-request-state-consumed-by-another-instruction".into());
+    }
+    None
+}
+
+/// deterministic replays of the recorded findings: (property, script, number of peers, seed of the schedule)
+pub fn known_scenarios(prop: &str) -> Vec<(String, usize, u64)> {
+    let p = peers_for(5);
+    match prop {
+        // a call whose arguments were unresolved on the sender is recorded as sent; on the target its lens fails
+        // catchably *before* the state is consumed; the xor fallback then reads the stale call state
+        "C04" => vec![(format!(r#"(par (call "{d}" ("svc" "arrempty_1") [] v) (xor (call "{e}" ("svc" "str_2") [v.$.[0]] w) (ap "x" $s)))"#, d = p[3].id, e = p[4].id), 5, 1)],
+        _ => vec![],
+    }
+}
+
 // ---------------------------------------------------------------- drivers
 
 fn canon_case(h: &Hist) -> String { format!("{}|{}", h.air, h.net.log.iter().map(|s| format!("{}:{}:{}", s.peer, s.event, s.outcome.ret_code)).collect::<Vec<_>>().join(",")) }
@@ -338,6 +360,22 @@ pub fn run_property(prop: &str, ctx: &mut Ctx, rep: &mut Report) {
     rep.rule = format!("case = one step (run) of a simulated honest history of a generated script over 3-5 peers (random delivery order, duplicated deliveries, late/batched call results{}); \
         non-trivial = history with at least 2 runs; distinct by hash of (script, schedule of (peer,event,code))", if prop == "C02" { ", injected faulty runs" } else { "" });
     let observer = Peer::new("observer");
+    // replay the recorded findings first
+    for (air, n_peers, sseed) in known_scenarios(prop) {
+        let peers = peers_for(n_peers);
+        let mut net = Net::new(&air, &peers, "known-finding");
+        let mut r2 = Rng::new(sseed);
+        net.run_random(&mut r2, 40);
+        for st in &net.log {
+            let fail = match prop { "C04" => check_c04_step(st), _ => None };
+            if let Some(why) = fail {
+                let input = step_json(&net, st);
+                let key = finding_key(prop, &why, &input);
+                rep.oracle_fail(json!({"why": why, "input": input, "finding_key": key, "scenario": "known-finding replay"}));
+                break;
+            }
+        }
+    }
     for hi in 0..pl.histories {
         let streams = pl.streams_every == 1 || hi % pl.streams_every == 1;
         let budget = 6 + rng.below(pl.budget); let mut h = gen_history(&mut rng, streams, pl.fragment, budget, pl.max_steps);
@@ -416,7 +454,8 @@ pub fn run_property(prop: &str, ctx: &mut Ctx, rep: &mut Report) {
         for _ in 0..n_steps.max(1) - 1 { rep.evaluations += 1; }
         rep.case(&canon, nontrivial, || json!({"air": h.air, "peers": h.net.peers.len(), "steps": h.net.log.iter().map(|s| format!("{}:{}:{}", h.net.peers[s.peer].peer.name, s.event, s.outcome.ret_code)).collect::<Vec<_>>()}));
         if let Some((why, input)) = first_fail {
-            rep.oracle_fail(json!({"why": why, "input": input, "history_seed": h.seed}));
+            let key = finding_key(prop, &why, &input);
+            rep.oracle_fail(json!({"why": why, "input": input, "history_seed": h.seed, "finding_key": key}));
         }
     }
 }
